@@ -634,11 +634,13 @@ func (p Prop) Run(r *core.Run) *core.Violation {
 		r.Nontrivial(h.Sum64())
 	}
 	if r.T.Pos()%37 == 0 || r.Tracing {
-		var s []string
-		for _, o := range ops {
-			s = append(s, o.String())
-		}
-		r.Sample(map[string]any{"history": s})
+		r.Quiet(func() {
+			var s []string
+			for _, o := range ops {
+				s = append(s, o.String())
+			}
+			r.Sample(map[string]any{"history": s})
+		})
 	}
 	r.Obs(h.Sum64())
 	return runHistory(ops, r)
